@@ -98,8 +98,8 @@ def main(argv):
             fx_rel = F.Facts(raw2)
         R.bodies_in_facts = len(raw['fns'])
         R.extra['facts_build_s'] = round(secs, 2)
-        if raw.get('crate') != 'ppp' or len(raw['fns']) < 160:
-            R.violation('facts', 'bodies', 'anchor-missing', note='facts list %d bodies for crate %r (expected >= 160 for ppp)' % (len(raw['fns']), raw.get('crate')))
+        if raw.get('crate') != 'ppp' or len(raw['fns']) < 100:
+            R.violation('facts', 'bodies', 'anchor-missing', note='facts list %d bodies for crate %r (expected >= 100 for ppp)' % (len(raw['fns']), raw.get('crate')))
         ctx = Ctx(fx, R, tier, fx_rel)
         mod.run(ctx, R)
         # what the value-flow analysis did with loops and calls on the way (per analysed entry point)
